@@ -216,6 +216,56 @@ func registerHook(in *Interp) {
 	in.reg(h+"StrEq", func(th *Thread, fn *ssa.Function, a []Value) Value {
 		return th.equals(a[0], a[1])
 	})
+	in.reg(h+"ByteClass", func(th *Thread, fn *ssa.Function, a []Value) Value {
+		classes := th.strs(a[1], "byte classes")
+		inClass := func(b byte, c string) bool {
+			for i := 0; i < len(c); i++ {
+				if i+2 < len(c) && c[i+1] == '-' {
+					if b >= c[i] && b <= c[i+2] {
+						return true
+					}
+					i += 2
+					continue
+				}
+				if c[i] == b {
+					return true
+				}
+			}
+			return false
+		}
+		switch b := a[0].(type) {
+		case int64:
+			for i, c := range classes {
+				if inClass(byte(b), c) {
+					return int64(i)
+				}
+			}
+			return int64(len(classes))
+		case *sym.Term:
+			// exclusive classes: class i = in(c_i) and not in any earlier class
+			cons := make([]*sym.Term, len(classes)+1)
+			earlier := sym.False
+			for i, c := range classes {
+				m := sym.False
+				for x := 0; x < 256; x++ {
+					if inClass(byte(x), c) {
+						// collect maximal runs
+						y := x
+						for y+1 < 256 && inClass(byte(y+1), c) {
+							y++
+						}
+						m = sym.Or(m, sym.And(sym.BVCmp("bvule", sym.BVConst(uint64(x), 8), b), sym.BVCmp("bvule", b, sym.BVConst(uint64(y), 8))))
+						x = y
+					}
+				}
+				cons[i] = sym.And(m, sym.Not(earlier))
+				earlier = sym.Or(earlier, m)
+			}
+			cons[len(classes)] = sym.Not(earlier)
+			return int64(th.ex.decide("byteclass", len(cons), cons, ""))
+		}
+		panic("ByteClass")
+	})
 	in.reg(h+"Note", func(th *Thread, fn *ssa.Function, a []Value) Value {
 		th.ex.notes = append(th.ex.notes, a[0])
 		return nil
